@@ -142,6 +142,7 @@ def replay(case):
     progcheck.setup_process()
     if case.get('mode') == 'vars':
         check_vars(case['cls'])
+        check_freeze_propagation()
     else:
         refmodel.STRICT_UNORDERED[0] = False
         try:
@@ -251,6 +252,49 @@ def check_vars(only=None):
     return checked
 
 
+def check_freeze_propagation():
+    """copy(freeze=True) of EVERY stage class above a per-epoch reshuffle must iterate in one fixed order."""
+    import lazy_dataset
+    from lazy_dataset import core
+    f = lambda x: x  # noqa
+    checked = []
+
+    def rs(seed_):
+        return lazy_dataset.new({k: i for i, k in enumerate('abcdefgh')}).shuffle(True, rng=np.random.RandomState(seed_))
+    stages = {
+        'MapDataset': lambda: rs(1).map(f),
+        'ParMapDataset': lambda: rs(2).map(f, num_workers=2, buffer_size=3),
+        'FilterDataset': lambda: rs(3).filter(lambda x: x != 3),
+        'ConcatenateDataset': lambda: rs(4).concatenate(lazy_dataset.new([100, 101])),
+        'ZipDataset': lambda: lazy_dataset.new(list(range(8))).zip(rs(5)),
+        'ItemsDataset': lambda: rs(6).items(),
+        'BatchDataset': lambda: rs(7).batch(3),
+        'UnbatchDataset': lambda: rs(8).batch(3).unbatch(),
+        'DynamicBucketDataset': lambda: rs(9).batch_dynamic_time_series_bucket(
+            batch_size=2, len_key=lambda x: x + 1, max_padding_rate=0.9),
+        'PrefetchDataset': lambda: rs(10).prefetch(1, 2),
+        'CatchExceptionDataset': lambda: rs(11).map(f).catch(),
+        'CacheDataset-eager-free': lambda: rs(12).map(f).items(),
+        'ApplyDataset': lambda: rs(13).apply(lambda d: d.map(f), lazy=True),
+        'ProfilingDataset': lambda: core.ProfilingDataset(rs(14).map(f)),
+        'LocalShuffle-below-map': lambda: rs(15).map(f).map(f),
+    }
+    for name, mk in stages.items():
+        ds = mk()
+        F = ds.copy(freeze=True)
+        np.random.seed(1)
+        e1 = list(F)
+        list(ds)
+        np.random.seed(2)
+        e2 = list(F)
+        e3 = list(F)
+        if not (e1 == e2 == e3):
+            raise Violation(f'freeze-not-propagated|{name}',
+                            f'copy(freeze=True) of a {name} above a per-epoch reshuffle iterates as {e1}, {e2}, {e3}')
+        checked.append(name)
+    return checked
+
+
 @st.composite
 def st_case(draw):
     refmodel.STRICT_UNORDERED[0] = False
@@ -301,9 +345,12 @@ def run_shard(tier, idx, nshards, rec, known):
             names = check_vars()
             for nm in names:
                 rec.case({'mode': 'vars', 'cls': nm}, True, ['vars:' + nm])
+            for nm in check_freeze_propagation():
+                rec.case({'mode': 'freeze', 'cls': nm}, True, ['freeze:' + nm])
         except Violation as v:
             if not known.match(v.sig):
-                o.violation = ({'mode': 'vars', 'cls': v.sig.split('|')[1].split('.')[0]}, v.sig, v.detail)
+                o.violation = ({'mode': 'vars', 'cls': v.sig.split('|')[1].split('.')[0] if 'copy' in v.sig
+                                else None}, v.sig, v.detail)
         outs.append(o)
 
     def one(case):
